@@ -382,6 +382,8 @@ def finish(ctx, proof, coverage_extra, assumptions):
         "theorems": proof.get("theorems", []), "axioms_reported_by_Print_Assumptions": proof.get("axioms", []),
         "proof_failures": proof.get("failures", []),
     }
+    if "coqchk" in proof:
+        cov["coqchk"] = proof["coqchk"]      # thorough tier: the independent checker re-checked the property file and everything it depends on
     cov.update(coverage_extra)
     for k in ctx.known_hits:
         print("KNOWN-FINDING: property=%s %s" % (ctx.prop, k))
